@@ -461,7 +461,6 @@ func c16Resume(c *Ctx) {
 	}
 }
 
-
 // c16Contiguous (R4): files are applied to a followed database only when they are
 // contiguous with and extend its current TXID (shared with C02: the state labelled
 // with a TXID is never a mixture).
@@ -535,7 +534,6 @@ func c16Contiguous(c *Ctx) {
 	}
 
 }
-
 
 // applyResizeRule: applyLTXFile always resizes the followed file to the committed size
 // (the truncate also EXTENDS it when the last committed page is not carried by the LTX
